@@ -63,7 +63,7 @@ func c05(r *Report) propMeta {
 	r.Gate("eligible-active", tK+"GetAvailableMembers", CallEff("builtin.append"), []Cond{
 		{Op: "BOOL", A: []string{"field:Member.IsActive"}, Want: true, Desc: "member.IsActive"},
 		{Op: "BOOL", A: []string{"call:Keeper.HasDE", "field:Member.Address"}, Want: true, Desc: "HasDE(member.Address)"}}, GateOpts{})
-	r.RetHas("hasde-means-nonempty", tK+"HasDE", 0, "^binop:>", "field:DEQueue.Tail", "field:DEQueue.Head", "call:Keeper.GetDEQueue", "param:address")
+	r.RetPred("hasde-means-nonempty", tK+"HasDE", 0, Cond{Op: "LSS", A: []string{"^field:DEQueue.Head", "call:Keeper.GetDEQueue", "param:address"}, B: []string{"^field:DEQueue.Tail", "call:Keeper.GetDEQueue", "param:address"}, Want: true, Desc: "Head < Tail"}, 1)
 	r.Callers("callers", tK+"GetAvailableMembers", []string{tK + "GetRandomMembers", "x/tss/keeper.queryServer", "x/tss/keeper.Querier"}, []string{tK + "GetRandomMembers"})
 
 	r.Rule("C05.R5", "E3 reset")
@@ -83,6 +83,12 @@ func c05(r *Report) propMeta {
 	r.Rule("C05.R7", "E15 wire fields validated by their own type")
 	r.WireFieldsValidated("wire", "x/tss/types", []string{"MsgSubmitDEs"}, 2)
 
+	r.Rule("C05.R10", "genesis export: only queued nonces are exported")
+	eg := "x/tss/keeper.Keeper.ExportGenesis"
+	r.Exists("exported-des-are-the-queues", eg, StoreEff("GenesisState.DEs", "^call:Keeper.GetDEsGenesis"), 1)
+	r.EffectSet("export-reads-no-signing-state", eg, []string{"Keeper.GetSigningAttempt", "Keeper.MustGetSigningAttempt", "Keeper.GetSigning", "Keeper.MustGetSigning", "Keeper.GetSignings", "Keeper.GetPendingProcessSignings", "Keeper.GetSigningExpirations"}, nil)
+	r.ArgHas("exported-from-head-to-tail", "x/tss/keeper.Keeper.GetDEsGenesis", "Keeper.GetDE", 2, 1, "field:DEQueue.Head")
+
 	r.Rule("C05.R9", "E20 event agreement: what the cylinder DE / signing workers read is emitted")
 	r.EventAgreement("events", 2, "cylinder/workers/de", "cylinder/workers/signing")
 
@@ -97,6 +103,7 @@ func c05(r *Report) propMeta {
 			"R7 both points of every submitted DE reach tss.Point.Validate from MsgSubmitDEs.ValidateBasic",
 			"R8 tss InitGenesis rebuilds each member's queue from GenesisState.DEs in list order: no unstable sort (or any other lint hit) in the import path (seed C05-6 sorted the flat list with sort.Slice, which permutes one member's pairs for lists longer than 12)",
 			"R9 the (event type, attribute key) pairs the cylinder DE and signing workers read (request_signature.signing_id, pub_d / pub_e of consumed and deleted DEs) are emitted by x/tss: the daemon replaces exactly the nonces the chain consumed",
+			"R10 ExportGenesis exports exactly the queued nonces (GetDEsGenesis: Head..Tail of every queue) and reads no signing state: a nonce pair that was already assigned to an attempt is never put back into a queue by export/import (seed C05-7)",
 		},
 		Undecided: []string{"that the daemon never re-registers the same (D,E) pair (randomness)", "FIFO order as a history property beyond R2's head arithmetic"},
 		Assume:    []string{"CacheContext isolates writes until writeFn is called", "msg handlers are atomic (baseapp runTx)", "VTA resolves the bandtss/tss keeper interfaces and callback router"},
